@@ -150,15 +150,46 @@ func init() {
 			}
 			kind := WriteKinds[i%len(WriteKinds)]
 			dry := (i/len(WriteKinds))%2 == 1
+			// C14 / C13: every other case is the refusal the property is about, met under every
+			// fault plan (a reference, resp. an idempotency key, committed by the prefix is reused)
+			directed := (Prop == "C14" || Prop == "C13") && i%2 == 1
+			if directed {
+				if i%4 == 1 {
+					kind = KCreateP
+				} else if Prop == "C14" {
+					kind = KCreateS
+				}
+				dry = false
+				if (Prop == "C14" && len(g.refs) == 0) || (Prop == "C13" && len(g.iks) == 0) {
+					seedOp := Op{K: KCreateP, Now: int64(1704067200000000 + 10000000*(n+1)), IK: "seed-ik", Ref: "seed-ref",
+						Postings: []memstore.CPosting{{S: "world", D: "bank", A: "USD/2", N: "7"}}}
+					if len(g.versions) > 0 {
+						seedOp.SV = g.versions[len(g.versions)-1]
+					}
+					o := e.Run(BaseCtx(), seedOp)
+					g.observe(seedOp, o)
+					in.Prefix = append(in.Prefix, seedOp)
+				}
+			}
 			// prefer an op that succeeds on this state (up to 6 draws), keep the last draw otherwise
 			var op Op
 			tries := 6
 			if (i/(2*len(WriteKinds)))%3 == 2 {
 				tries = 1 // every third round: keep whatever the first draw does (naturally failing ops under faults)
 			}
+			if directed {
+				tries = 1
+			}
 			for try := 0; try < tries; try++ {
-				op = genOpOfKind(c, g, n, kind)
+				op = genOpOfKind(c, g, n+1, kind)
 				op.Dry = dry
+				if directed && Prop == "C14" && len(g.refs) > 0 {
+					op.Ref = g.refs[c.R.Intn(len(g.refs))]
+					op.IK = ""
+				}
+				if directed && Prop == "C13" && len(g.iks) > 0 {
+					op.IK = g.iks[c.R.Intn(len(g.iks))].IK
+				}
 				if tries == 1 && (kind == KCreateP || kind == KCreateS) && len(g.refs) > 0 {
 					// a create that reuses a reference: its own failure must survive the retry path
 					op.Ref = g.refs[c.R.Intn(len(g.refs))]
